@@ -828,9 +828,9 @@ End Pods.
 
 (* Theorem (RemoveNode, after fix e29cb66): the invariant is kept -- in particular
    every task that sits on the removed node still has an entry (the placeholder) *)
-Theorem remove_node_inv c nid : Rep c -> Rep (remove_node c nid).
+Lemma remove_node_ledger_inv c nid : Rep c -> Rep (remove_node_ledger c nid).
 Proof.
-  intros R. unfold remove_node. destruct (c_nodes c !! nid) as [ni|] eqn:Hni.
+  intros R. unfold remove_node_ledger. destruct (c_nodes c !! nid) as [ni|] eqn:Hni.
   - pose proof (rp_nodes c R nid ni Hni) as HR. case_bool_decide as He.
     + destruct R as [A B C D E F]. split; simpl; auto.
       * intros n N HN. rewrite lookup_delete_Some in HN. apply E. tauto.
@@ -851,12 +851,15 @@ Proof.
   - apply (rep_frame c); auto.
 Qed.
 
+Theorem remove_node_inv c nid : Rep c -> Rep (remove_node c nid).
+Proof. intros R. unfold remove_node. eapply rep_frame; [| | |apply (remove_node_ledger_inv c nid R)]; reflexivity. Qed.
+
 (* the placeholder holds exactly the tasks the NodeInfo held *)
 Lemma remove_node_keeps_tasks c nid ni :
   c_nodes c !! nid = Some ni -> n_tasks ni <> ∅ ->
   exists ph, c_nodes (remove_node c nid) !! nid = Some ph /\ n_tasks ph = n_tasks ni /\ n_has_node ph = false.
 Proof.
-  intros H Hne. unfold remove_node. rewrite H. rewrite bool_decide_eq_false_2 by exact Hne.
+  intros H Hne. unfold remove_node, remove_node_ledger. rewrite H. rewrite bool_decide_eq_false_2 by exact Hne.
   simpl. rewrite lookup_insert. eexists. split; [reflexivity|]. split; reflexivity.
 Qed.
 
@@ -1134,12 +1137,36 @@ Variable eps : Z.
 Definition Inv (c : cache) : Prop := Rep c /\ Synced eps c /\ store_ok c.
 
 (* the API rules, stated against the informer store the cache was fed from *)
+(* setOversubscription never resets OversubscriptionResource: an annotation may be
+   absent only while the NodeInfo remembers no amount for it *)
+Definition over_kept (c : cache) (v : nodever) : Prop :=
+  let old := default no_attr (c_nattr c !! nv_id v) in
+  (nv_over_cpu v = None -> na_over_cpu old = 0) /\ (nv_over_mem v = None -> na_over_mem old = 0).
+
+Lemma eff_alloc_kept c v : over_kept c v -> no_alloc (eff_obj c v) = obj_alloc v.
+Proof.
+  intros [H1 H2]. unfold eff_obj, obj_alloc, node_attr, over_res. simpl.
+  destruct (nv_over_cpu v), (nv_over_mem v); simpl; rewrite ?H1, ?H2 by reflexivity; reflexivity.
+Qed.
+
+Lemma node_event_inv c v :
+  Rep c -> sc (nv_base v) <> None ->
+  Rep (node_event c v) /\
+  exists N, c_nodes (node_event c v) !! nv_id v = Some N /\ n_has_node N = true /\ n_alloc N = no_alloc (eff_obj c v).
+Proof.
+  intros R Hsc.
+  destruct (add_or_update_node_inv c (eff_obj c v) R) as [R1 H1].
+  { simpl. apply sc_add_keep. exact Hsc. }
+  split; [eapply rep_frame; [| | |exact R1]; reflexivity|exact H1].
+Qed.
+
 Definition step_ok (c : cache) (e : event) : Prop :=
   match e with
   | EPod p => pod_ok p /\ forall old, c_store c !! p_id p = Some old -> upd_ok old p
   | EPodDel _ | ENodeDel _ | EQueue _ | EQueueDel _ | EPGDel _ => True
   | EPG g => g_id g <> no_job
-  | ENode o => sc (no_alloc o) <> None      (* status.allocatable always lists "pods" *)
+  | ENode v => sc (nv_base v) <> None       (* status.allocatable always lists "pods" *)
+               /\ over_kept c v            (* an oversubscription annotation, once set, is not removed *)
   | _ => False
   end.
 
@@ -1161,9 +1188,9 @@ Proof.
   intros (R & S & So) Hok. destruct e; simpl in Hok; try contradiction.
   - destruct Hok as [Hp Hu]. destruct (handle_pod_inv eps c p R S So Hp Hu) as (A & B & C & _). split; auto.
   - destruct (handle_pod_del_inv eps c id R S So) as (A & B & C & _). split; auto.
-  - split; [exact (proj1 (add_or_update_node_inv c o R Hok))|]. split; [exact S|exact So].
+  - split; [exact (proj1 (node_event_inv c v R (proj1 Hok)))|]. split; [exact S|exact So].
   - assert (E : c_heap (remove_node c id) = c_heap c /\ c_store (remove_node c id) = c_store c).
-    { unfold remove_node. destruct (c_nodes c !! id); [case_bool_decide|]; split; reflexivity. }
+    { unfold remove_node, remove_node_ledger. destruct (c_nodes c !! id); [case_bool_decide|]; split; reflexivity. }
     destruct E as [E1 E2].
     split; [exact (remove_node_inv c id R)|]. split; [unfold Synced; simpl; rewrite E1, E2; exact S|].
     unfold store_ok. simpl. rewrite E2. exact So.
@@ -1204,9 +1231,9 @@ Qed.
 
 (* ---------- the node objects and the pod store are tracked ---------- *)
 
-Definition NodesMirror (c : cache) (on : gmap positive nodeobj) : Prop :=
+Definition NodesMirror (c : cache) (on : gmap positive nodever) : Prop :=
   forall n, match on !! n with
-            | Some ob => exists N, c_nodes c !! n = Some N /\ n_has_node N = true /\ n_alloc N = no_alloc ob
+            | Some ob => exists N, c_nodes c !! n = Some N /\ n_has_node N = true /\ n_alloc N = obj_alloc ob
             | None => forall N, c_nodes c !! n = Some N -> n_has_node N = false
             end.
 
@@ -1235,14 +1262,15 @@ Proof.
     split; [rewrite E, Hst; reflexivity|]. exact (mirror_ext c _ _ Hne Hm).
   - destruct (handle_pod_del_inv eps c id R S So) as (_ & _ & _ & E & _ & Hne).
     split; [rewrite E, Hst; reflexivity|]. exact (mirror_ext c _ _ Hne Hm).
-  - destruct (add_or_update_node_inv c o0 R Hok) as (_ & N & HN & Hh & Ha).
-    split; [exact Hst|]. intros n. simpl. destruct (decide (n = no_id o0)) as [->|Hne].
+  - destruct Hok as [Hsc Hk]. destruct (node_event_inv c v R Hsc) as (_ & N & HN & Hh & Ha).
+    rewrite (eff_alloc_kept c v Hk) in Ha.
+    split; [exact Hst|]. intros n. simpl. destruct (decide (n = nv_id v)) as [->|Hne].
     + rewrite lookup_insert. exists N. auto.
     + rewrite lookup_insert_ne by congruence. specialize (Hm n).
-      unfold handle, handle_with, add_or_update_node. simpl. rewrite lookup_insert_ne by congruence. exact Hm.
+      unfold handle, handle_with, node_event, add_or_update_node. simpl. rewrite lookup_insert_ne by congruence. exact Hm.
   - split.
-    + simpl. unfold remove_node. destruct (c_nodes c !! id); [case_bool_decide|]; exact Hst.
-    + intros n. simpl. specialize (Hm n). unfold remove_node.
+    + simpl. unfold remove_node, remove_node_ledger. destruct (c_nodes c !! id); [case_bool_decide|]; exact Hst.
+    + intros n. simpl. specialize (Hm n). unfold remove_node, remove_node_ledger.
       destruct (decide (n = id)) as [->|Hne].
       * rewrite lookup_delete. destruct (c_nodes c !! id) as [ni|] eqn:E; [case_bool_decide|]; simpl.
         -- intros N. rewrite lookup_delete. discriminate.
